@@ -3,13 +3,16 @@
     the range, either order) is the area under that same clamped function:
     additive over adjacent ranges, sign change when the limits are swapped.
 
-    Statements only; proofs are in Proofs/SplineWrapSpec.v.  The model is
-    Model/SplineWrap.v (class Spline of spowtd/spline.py) at the real-number
-    instance.  FITPACK enters through the variables [ev] (splev) and [splint]
-    and their contract, which the check tests on every tck object of a run. *)
-From Coq Require Import Reals Lra.
+    Statements only; proofs are in Proofs/SplineWrapSpec.v (the wrapper class
+    Spline of spowtd/spline.py, Model/SplineWrap.v, with FITPACK as variables
+    [ev] = splev, [splint] under a contract that the check tests on every tck
+    of a run) and Proofs/SplineWrapPPSpec.v (Model/SplineWrapPP.v: the exact
+    interpolating splines, where nothing is assumed).  Real-number instance
+    [Rops] of the models; quantification: all knot ranges, all limits. *)
+From Coq Require Import Reals List QArith.
 From Coquelicot Require Import Coquelicot.
-From Spowtd Require Import Model.SplineWrap Proofs.SplineWrapSpec.
+From Spowtd Require Import Model.SplineWrapPP Proofs.SplineWrapSpec Proofs.SplineWrapPPSpec.
+Import ListNotations.
 Local Open Scope R_scope.
 
 (** Constant extrapolation: below the lowest knot the value is the value at
@@ -20,12 +23,7 @@ Theorem C14_const_outside :
     (x <= xmin -> call Rops xmin xmax ev x = ev xmin) /\
     (xmax <= x -> call Rops xmin xmax ev x = ev xmax) /\
     (xmin <= x <= xmax -> call Rops xmin xmax ev x = ev x).
-Proof.
-  intros xmin xmax ev dom x. split; [|split]; intro H.
-  - now apply call_below.
-  - now apply call_above.
-  - now apply call_inside.
-Qed.
+Proof. exact call_cases. Qed.
 Print Assumptions C14_const_outside.
 
 (** [integrate a b] is the increment of ONE function, for all a, b: every
@@ -63,7 +61,7 @@ Theorem C14_antisym :
 Proof. exact integrate_antisym. Qed.
 Print Assumptions C14_antisym.
 
-(** Both limits on the same side of the knot range: rectangle. *)
+(** Both limits on the same side of the knot range: a rectangle. *)
 Theorem C14_below_above :
   forall (xmin xmax : R) (ev : R -> R) (splint : R -> R -> R) (P : R -> R),
     xmin < xmax ->
@@ -72,17 +70,26 @@ Theorem C14_below_above :
     forall a b,
       (a <= xmin -> b <= xmin -> integrate Rops xmin xmax ev splint a b = ev xmin * (b - a)) /\
       (xmax <= a -> xmax <= b -> integrate Rops xmin xmax ev splint a b = ev xmax * (b - a)).
-Proof.
-  intros xmin xmax ev splint P dom Hin Hab a b. split.
-  - now apply (integrate_below xmin xmax ev splint P).
-  - now apply (integrate_above xmin xmax ev splint P).
-Qed.
+Proof. exact integrate_below_above. Qed.
 Print Assumptions C14_below_above.
 
-(** The area: when inside the knot range splint is the integral of splev
-    (here: P' = ev, ev continuous), [integrate a b] is the Riemann integral of
-    the clamped function [call] from a to b, for all a, b. *)
+(** The area: when inside the knot range splint is the integral of splev,
+    [integrate a b] is the Riemann integral of the clamped function [call]
+    from a to b, for all a, b. *)
 Theorem C14_area :
+  forall (xmin xmax : R) (ev : R -> R) (splint : R -> R -> R) (P : R -> R),
+    xmin < xmax ->
+    (forall a b, xmin <= a -> a <= b -> b <= xmax -> splint a b = P b - P a) ->
+    (forall a, xmax <= a -> splint a xmax = 0) ->
+    (forall a b, xmin <= a -> a <= b -> b <= xmax -> is_RInt ev a b (P b - P a)) ->
+    forall a b,
+      is_RInt (call Rops xmin xmax ev) a b (integrate Rops xmin xmax ev splint a b) /\
+      integrate Rops xmin xmax ev splint a b = RInt (call Rops xmin xmax ev) a b.
+Proof. exact integrate_area_pack. Qed.
+Print Assumptions C14_area.
+
+(** The same from the usual form of the contract: P' = ev, ev continuous. *)
+Theorem C14_area_from_derivative :
   forall (xmin xmax : R) (ev : R -> R) (splint : R -> R -> R) (P : R -> R),
     xmin < xmax ->
     (forall a b, xmin <= a -> a <= b -> b <= xmax -> splint a b = P b - P a) ->
@@ -90,11 +97,81 @@ Theorem C14_area :
     (forall x, xmin <= x <= xmax -> is_derive P x (ev x)) ->
     (forall x, xmin <= x <= xmax -> continuous ev x) ->
     forall a b,
-      is_RInt (call Rops xmin xmax ev) a b (integrate Rops xmin xmax ev splint a b) /\
       integrate Rops xmin xmax ev splint a b = RInt (call Rops xmin xmax ev) a b.
-Proof.
-  intros xmin xmax ev splint P dom Hin Hab HP Hc a b. split.
-  - now apply (integrate_is_RInt xmin xmax ev splint P).
-  - now apply (integrate_area xmin xmax ev splint P).
-Qed.
-Print Assumptions C14_area.
+Proof. exact integrate_area_deriv. Qed.
+Print Assumptions C14_area_from_derivative.
+
+(** ---- oracle-free: the exact interpolating splines of Model/SplineWrapPP.v *)
+
+(** Order 1 (what PEATCLSM and the transmissivity use), ALL strictly increasing
+    knots (two or more) and ALL values: passes through every knot ... *)
+Theorem C14_linear_knots :
+  forall knots values, (2 <= length knots)%nat -> incr_list knots ->
+    length values = length knots ->
+    forall i, (i < length knots)%nat ->
+      pp_call Rops knots (lin_pp Rops knots values) (nth i knots 0) = nth i values 0.
+Proof. exact lin_pp_knots. Qed.
+Print Assumptions C14_linear_knots.
+
+(** ... and [integrate] is the Riemann integral of the clamped function. *)
+Theorem C14_linear_area :
+  forall knots values, (2 <= length knots)%nat -> incr_list knots ->
+    length values = length knots ->
+    forall a b,
+      is_RInt (pp_call Rops knots (lin_pp Rops knots values)) a b
+              (pp_integrate Rops knots (lin_pp Rops knots values) a b).
+Proof. exact lin_pp_is_RInt. Qed.
+Print Assumptions C14_linear_area.
+
+(** Order 3: every piecewise cubic that [nak_check] accepts (breakpoints = the
+    knots, 4 or more, strictly increasing; each piece takes the knot values at
+    both ends; C2 at interior knots; not-a-knot end conditions) passes through
+    every knot ... *)
+Theorem C14_cubic_knots :
+  forall knots values segs, nak_check Rops knots values segs = true ->
+    forall i, (i < length knots)%nat ->
+      pp_call Rops knots segs (nth i knots 0) = nth i values 0.
+Proof. exact nak_check_knots. Qed.
+Print Assumptions C14_cubic_knots.
+
+(** ... and its [integrate] is the Riemann integral of the clamped function,
+    for all limits in either order. *)
+Theorem C14_cubic_area :
+  forall knots values segs, nak_check Rops knots values segs = true ->
+    forall a b, is_RInt (pp_call Rops knots segs) a b (pp_integrate Rops knots segs a b).
+Proof. exact nak_check_is_RInt. Qed.
+Print Assumptions C14_cubic_area.
+
+(** Non-vacuity 1: the FITPACK contract assumed above is satisfiable by a
+    non-constant function (the exact linear spline through (0,1),(1,2),(3,0)). *)
+Example C14_contract_satisfiable :
+  exists (xmin xmax : R) (ev : R -> R) (splint : R -> R -> R) (P : R -> R),
+    xmin < xmax /\
+    (forall a b, xmin <= a -> a <= b -> b <= xmax -> splint a b = P b - P a) /\
+    (forall a, xmax <= a -> splint a xmax = 0) /\
+    (forall a b, xmin <= a -> a <= b -> b <= xmax -> is_RInt ev a b (P b - P a)) /\
+    ev xmin <> ev xmax.
+Proof. exact contract_satisfiable. Qed.
+
+(** Non-vacuity 2 (rational instance, computed): that spline from 1 below the
+    knots to 1 above them: 1*1 + (1.5 + 2) + 0*1; and reversed. *)
+Example C14_example_linear :
+  let knots := [0; 1; 3]%Q in let values := [1; 2; 0]%Q in
+  let segs := Qlin_pp knots values in
+  (Qeq_bool (Qpp_integrate knots segs (-1) 4) (9 # 2)
+   && Qeq_bool (Qpp_integrate knots segs 4 (-1)) (- (9 # 2))
+   && Qeq_bool (Qpp_call knots segs (-5)) 1 && Qeq_bool (Qpp_call knots segs 2) 1)%bool = true.
+Proof. vm_compute. reflexivity. Qed.
+
+(** Non-vacuity 3: the shipped spline parameter set: the not-a-knot cubic is
+    computed, passes [nak_check], and takes the knot values. *)
+Example C14_example_cubic :
+  let knots := [-2917 # 10; -1831 # 10; -1574 # 100; 1065 # 100; 3878 # 100; 1683 # 10]%Q in
+  let values := [1358 # 10000; 1671 # 10000; 2541 # 10000; 2907 # 10000; 2892 # 10000;
+                 6857 # 10000]%Q in
+  match Qnak_pp knots values with
+  | Some segs => forallb (fun kv => Qeq_bool (Qpp_call knots segs (fst kv)) (snd kv))
+                         (combine knots values)
+  | None => false
+  end = true.
+Proof. vm_compute. reflexivity. Qed.
